@@ -550,7 +550,7 @@ class Evaluator:
         if isinstance(e, ast.Call):
             try:
                 return self._call(e, env)
-            except (TypeError, ValueError, IndexError, KeyError, AttributeError, UnicodeError) as ex:
+            except (TypeError, ValueError, IndexError, KeyError, AttributeError, UnicodeError, OverflowError, ZeroDivisionError) as ex:
                 # the modelled operation itself raises, as it would at run time
                 raise _Raise(type(ex).__name__)
         raise AnalysisError(f'unsupported expression in decision procedure: {text(e)[:60]}')
@@ -620,6 +620,8 @@ class Evaluator:
                 if isinstance(recv, (str, bytes, dict, list, tuple)) and f.attr in STR_METHODS:
                     r = getattr(recv, f.attr)(*args)
                     return list(r) if f.attr in ('items', 'keys', 'values') else r
+                if isinstance(recv, (int, float)) and not isinstance(recv, bool) and f.attr in ('is_integer', 'bit_length', 'as_integer_ratio', 'hex', 'conjugate'):
+                    return getattr(recv, f.attr)(*args, **kwargs)
                 if isinstance(recv, Record) and callable(getattr(recv, f.attr, None)):
                     return getattr(recv, f.attr)(*args, **kwargs)
                 if isinstance(recv, Record) and recv is env.get('self') and isinstance(self._class_member(f.attr), ast.FunctionDef):
